@@ -66,3 +66,28 @@ Theorem C06_fk_twin5 : forall p q,
   m02 (rot (L6 p (jtwin5 q))) = m02 (rot (L6 p q)) /\ m12 (rot (L6 p (jtwin5 q))) = m12 (rot (L6 p q)) /\
   m22 (rot (L6 p (jtwin5 q))) = m22 (rot (L6 p q)).
 Proof. exact fk_twin5. Qed.
+
+(** ** completeness of the 5-DOF solver: the 5-DOF branch table is, by conversion, the 6-DOF table without its J6 column;
+    away from the singularities the originating J1..J5 (up to whole turns) comes back with the caller's J6 *)
+From VF Require Import Proofs.CompleteP Proofs.CompleteK Proofs.Complete5.
+Theorem C06_table5_is_table6 : forall p pose, ik_theta5_def p pose = map (firstn 5) (ik_theta_def p pose).
+Proof. exact table5_is_table6. Qed.
+
+Theorem C06_inverse_5dof_complete : forall (p : Params) (j : J6) (j6c : R) (compare_xyz : Iso -> Iso -> bool),
+  (forall a b, tr a = tr b -> compare_xyz a b = true) ->
+  (p_sg1 p = 1 \/ p_sg1 p = -1)%Z /\ (p_sg2 p = 1 \/ p_sg2 p = -1)%Z /\ (p_sg3 p = 1 \/ p_sg3 p = -1)%Z /\
+  (p_sg4 p = 1 \/ p_sg4 p = -1)%Z /\ (p_sg5 p = 1 \/ p_sg5 p = -1)%Z ->
+  let q := qint p j in
+  0 < p_a2 p * p_a2 p + p_c3 p * p_c3 p -> p_c2 p <> 0 ->
+  0 < aX (p_a2 p) (p_c2 p) (p_c3 p) (j2 q) (j3 q) * aX (p_a2 p) (p_c2 p) (p_c3 p) (j2 q) (j3 q) +
+      aZ (p_a2 p) (p_c2 p) (p_c3 p) (j2 q) (j3 q) * aZ (p_a2 p) (p_c2 p) (p_c3 p) (j2 q) (j3 q) ->
+  aX (p_a2 p) (p_c2 p) (p_c3 p) (j2 q) (j3 q) + p_a1 p <> 0 ->
+  sin (j5 q) <> 0 ->
+  forall cons : option (@Constraints R),
+  compliant_opt PI cons ([j1 j; j2 j; j3 j; j4 j; j5 j] ++ [j6c]) = true ->
+  exists s5, In (s5 ++ [j6c]) (inverse_5dof PI cons Iso (the_kernel5 p compare_xyz (ik_theta5_def p)) (fwd p j) j6c) /\
+             Forall2 (is_rep PI) s5 [j1 j; j2 j; j3 j; j4 j; j5 j].
+Proof.
+  intros p j j6c cmp Hr Hsg q Hk Hc HS Hx H5 cons Hcomp.
+  exact (inverse_5dof_complete p j j6c cmp Hr Hsg Hk Hc HS Hx H5 cons Hcomp).
+Qed.
